@@ -120,7 +120,7 @@ impl Engine for C05 {
         rec(&al, &mut Vec::new(), maxl, &keys, &blobs, &mut out);
         // bucket files whose length is exactly (or next to) a multiple of the usual 8 KiB read
         // block when the next record is appended
-        for target in [8192usize, 16384, 8191, 8193, 24576, 4096] {
+        for target in [8192usize, 16384, 8191, 8193, 24576, 4096, 32768, 65536, 65535, 65537, 131072, 262144, 1 << 20] {
             for variant in 0..2usize {
                 let bkeys = vec!["blk".to_string(), "other".to_string()];
                 let probe = crate::reffmt::Rec {
